@@ -279,6 +279,7 @@ def _mk_endpoint_classes():
             self.send_on_state = None  # state name: the application sends an order from on_state_change(that state)
             self.raise_on_state = None  # set of state names: on_state_change(that state) raises (failing application callback)
             self.send_on_disconnect = False  # the application tries to send an order from on_disconnect
+            self.disconnect_filter = None  # callable(msg) -> bool: on_message ends the session (Logout + close) itself
 
         async def _gate(self, name):
             g = self.gates
@@ -293,6 +294,9 @@ def _mk_endpoint_classes():
             await self._gate("on_message")
             if self.raise_filter is not None and self.raise_filter(msg):
                 raise RuntimeError("application callback failed")
+            if self.disconnect_filter is not None and self.disconnect_filter(msg):
+                from asyncfix.connection import ConnectionState
+                await self.disconnect(ConnectionState.DISCONNECTED_WCONN_TODAY, logout_message="end of day")
 
         async def on_connect(self):
             self.ev.append(("connect",))
